@@ -36,6 +36,20 @@ def shrink(lines, still_fails, budget=400):
     return cur
 
 
+def run_impl_early(progs, batch=360):
+    """the implementation on every program, in batches; once three programs have died or hung (each costs the whole
+    call deadline) the remaining batches are not run: their transcripts are None"""
+    out, dead = [], 0
+    for i in range(0, len(progs), batch):
+        res = seqrun.run_impl(progs[i:i + batch])
+        out += res
+        dead += sum(1 for o in res if any(x in ("<dead>", "timeout") for x in o))
+        if dead >= 3 and len(out) < len(progs):
+            out += [None] * (len(progs) - len(out))
+            break
+    return out
+
+
 def valid_program(lines):
     """replays the spec interpreter; a program is valid if it never refers to unknown things"""
     try:
@@ -65,7 +79,7 @@ def load_corpus(prop):
 
 
 def run(v, tier, seed, replay, prop, lean_modules, tree_oracles, wild_oracles=("no_panic",), knobs=None, n_quick=(500, 300), n_thorough=(40000, 20000),
-        known=None, assumptions=None, extra_cases=None, nontrivial=None):
+        known=None, assumptions=None, extra_cases=None, nontrivial=None, wild_knobs=None):
     """known: function(case_meta, failure) -> finding id or None (attribution to an open finding)"""
     lean = C.lean_check(lean_modules, tier)
     ok, err = C.cargo_build("fh-core", ["fh-seq"])
@@ -86,16 +100,18 @@ def run(v, tier, seed, replay, prop, lean_modules, tree_oracles, wild_oracles=("
         g = proggen.make(r.fork(), "tree", knobs(r, i) if knobs else None)
         cases.append(("tree", "tree-%d" % i, g.lines, list(tree_oracles)))
     for i in range(nw):
-        g = proggen.make(r.fork(), "wild")
+        g = proggen.make(r.fork(), "wild", wild_knobs(r, i) if wild_knobs else None)
         cases.append(("wild", "wild-%d" % i, g.lines, list(wild_oracles)))
     progs = [c[2] for c in cases]
-    impl = seqrun.run_impl(progs) if ok else None
+    impl = run_impl_early(progs) if ok else None
     model = seqrun.run_model(progs)
 
     fails, mism, kf_hits = [], [], []
     hist, nontriv, delivered = {}, set(), 0
     if impl is not None:
         for ci, (kind, tag, lines, names) in enumerate(cases):
+            if impl[ci] is None:
+                continue
             outs = impl[ci]
             for l in lines:
                 op = l.split()[1]
@@ -141,7 +157,9 @@ def run(v, tier, seed, replay, prop, lean_modules, tree_oracles, wild_oracles=("
         small = lines
         if kind != "replay" and len(lines) <= 400:
             try:
-                small = shrink(lines, still, 150 if tier == "quick" else 600)
+                # a call that does not return costs the whole deadline per candidate: shrink those only a little
+                slow = "did not return" in msg or "died" in msg
+                small = shrink(lines, still, 3 if slow else (150 if tier == "quick" else 600))
             except Exception:
                 small = lines
         o = seqrun.run_impl([small])[0]
@@ -187,7 +205,7 @@ def run(v, tier, seed, replay, prop, lean_modules, tree_oracles, wild_oracles=("
                 "and a 'wild' stream (any call sequence incl. re-entrant closures, no reporter, drops under open scopes) checked for panics; every program also runs through the Lean model. "
                 "non-trivial = distinct program in which at least one record was delivered",
         "samples": [{"origin": c[1], "program": c[2][:40]} for c in cases[:2]] + ([{"origin": cases[-1][1], "program": cases[-1][2][:40]}] if cases else []),
-        "traces_validated_against_impl": len(cases) if impl is not None else 0,
+        "traces_validated_against_impl": sum(1 for o in impl if o is not None) if impl is not None else 0,
         "op_histogram": hist, "records_delivered": delivered, "streams": {k: sum(1 for c in cases if c[0] == k) for k in ("corpus", "focus", "tree", "wild", "replay")},
         "correspondence_mismatches": len(mism), "oracle_failures": len(fails), "known_finding_hits": len(kf_hits),
     }
